@@ -19,7 +19,14 @@ FINISH = dict(level="proof", trusted=["lib/tabgen.py::consent_tables (constants 
 
 
 def pregen():
-    return tabgen.consent_tables()
+    import c13_session
+    gi, err = tabgen.consent_tables()
+    if gi is None:
+        return gi, err
+    gi2, err2 = c13_session.consent_session_shape()      # statements the session model depends on + coq/Gen/ConsentSession.v
+    if gi2 is None:
+        return gi2, err2
+    return gi, ""
 
 
 def prebuild():
@@ -27,7 +34,12 @@ def prebuild():
     return None if s else o
 
 
+TRACES = []
+
+
 def oracle(line, evs, meta):
+    if len(TRACES) < 1500:
+        TRACES.append((evs, meta))      # replayed through the Coq session model afterwards (c13_session.session_tie)
     return sc.oracle_consent(evs, meta) or sc.oracle_states(evs, None)
 
 
@@ -38,7 +50,10 @@ def run(chk):
     chk.prove(["Props/Properties_C13.v"])
     n = 400 if chk.tier == "quick" else 8000
     cases = [sc.gen_consent(chk.rng, i) for i in range(n)]
+    del TRACES[:]
     sc.run_sim(chk, cases, oracle, "sim-C13")
+    import c13_session
+    c13_session.session_tie(chk, TRACES)
     return chk.finish(**FINISH)
 
 
